@@ -455,8 +455,13 @@ pub fn run(args: &Args) -> i32 {
         }
     };
     if let Some(m) = merged.infos.get("machinery") {
-        eprintln!("MACHINERY: {m}");
-        return 2;
+        // an incomplete sweep decides nothing by itself - but violations found elsewhere in the
+        // same run stand, and they come first
+        if sink.count() == 0 {
+            eprintln!("MACHINERY: {m}");
+            return 2;
+        }
+        eprintln!("note: {m} (violations were found, they are reported)");
     }
     if merged.get("cache_entries_written_by_an_unhooked_insert_site") > 0 {
         eprintln!("WARNING: the engine writes cache entries at a site the observer hooks do not cover; node-budget cuts are judged for the hooked sites only");
